@@ -67,8 +67,12 @@ def objective_cases(draw: Any, max_n: int) -> dict:
     perms = [list(draw(gen_mat.perm(n)))]
     if draw(st.booleans()):
         perms.append(list(draw(gen_mat.perm(n))))
-    return {"mat": mat, "perms": perms,
+    case = {"mat": mat, "perms": perms,
             "x_dtype": draw(st.sampled_from(["space", "int64"]))}
+    if 2 <= n <= 6 and draw(st.integers(0, 2)) == 0:
+        # quarters of the way from the trivial bounds to the true optimum
+        case["bounds"] = [draw(st.integers(0, 4)), draw(st.integers(0, 4))]
+    return case
 
 
 def qaplib_tokens(n: int, flows: list[list[int]],
@@ -147,7 +151,21 @@ def check_objective(ctx: Ctx, case: dict) -> None:
         raise HarnessError("generator produced an upper bound >= 10^15")
     darr = np.array(dists, dtype=np.dtype(mat["d_dtype"]))
     farr = np.array(flows, dtype=np.dtype(mat["f_dtype"]))
-    inst = sut("qap Instance()", Instance, darr, farr)
+    given = case.get("bounds")
+    mn = mx = None
+    if given is not None and 2 <= n <= 6:
+        # valid bounds supplied by the caller (as from_resource does with the
+        # best known values): between the trivial bound and the true optimum
+        mn, mx = o.qap_min_max(flows, dists)
+        glb = rlb + (mn - rlb) * given[0] // 4
+        gub = rub - (rub - mx) * given[1] // 4
+        inst = sut("qap Instance(bounds)", Instance, darr, farr, glb, gub)
+        require(glb <= inst.lower_bound <= mn and mx <= inst.upper_bound
+                <= gub, lambda: f"supplied bounds [{glb}, {gub}] (true "
+                f"optimum range [{mn}, {mx}]) became "
+                f"[{inst.lower_bound}, {inst.upper_bound}]")
+    else:
+        inst = sut("qap Instance()", Instance, darr, farr)
     require(inst.n == n, lambda: f"n={inst.n}, expected {n}")
     require(inst.distances.tolist() == dists,
             lambda: f"stored distances differ: {inst.distances.tolist()} "
@@ -189,6 +207,10 @@ def check_objective(ctx: Ctx, case: dict) -> None:
             labels.append("bound_tight")
     labels.append("bounds=rearrangement" if (lb, ub) == (rlb, rub)
                   else "bounds!=rearrangement")
+    if mn is not None:
+        labels.append("bounds_supplied")
+    if max(max(r) for r in flows + dists) > 10 ** 12:
+        labels.append("entry>1e12")
     for e in gen_mat.QAP_EDGES:
         if abs(rub - e) <= 3:
             labels.append(f"at_limit_{e}:" + ("above" if rub > e
